@@ -81,15 +81,14 @@ Definition set_add (s : list string) (k : string) : list string := if set_mem s 
 (* ---------- AffineForm, bounds.rs:147-249 *)
 Record aform := mkAF { af_coeffs : list (string * xq); af_const : xq }.
 
+Definition af_merge_step (mult : xq) (acc : list (string * xq)) (p : string * xq) : list (string * xq) :=
+  let cur := match al_get acc (fst p) with Some v => v | None => Fin 0%Q end in
+  let c' := xq_add cur (xq_mul (snd p) mult) in
+  if xq_is_zero c' then al_remove acc (fst p) else al_insert acc (fst p) c'.
+
 Definition af_merge (self other : aform) (mult : xq) : aform :=
-  let coeffs :=
-    fold_left (fun acc (p : string * xq) =>
-      let (name, c) := p in
-      let cur := match al_get acc name with Some v => v | None => Fin 0%Q end in
-      let c' := xq_add cur (xq_mul c mult) in
-      if xq_is_zero c' then al_remove acc name else al_insert acc name c')
-      (af_coeffs other) (af_coeffs self) in
-  mkAF coeffs (xq_add (af_const self) (xq_mul (af_const other) mult)).
+  mkAF (fold_left (af_merge_step mult) (af_coeffs other) (af_coeffs self))
+       (xq_add (af_const self) (xq_mul (af_const other) mult)).
 
 Definition af_scale (self : aform) (c : xq) : aform :=
   mkAF (filter (fun p => negb (xq_is_zero (snd p))) (map (fun p => (fst p, xq_mul (snd p) c)) (af_coeffs self)))
@@ -104,18 +103,18 @@ Fixpoint af_from_exp (e : exp) : option aform :=
   | BinOp Sub l r =>
       match af_from_exp l, af_from_exp r with Some a, Some b => Some (af_merge a b (Fin (-1)%Q)) | _, _ => None end
   | BinOp Mul l r =>
-      match l with
-      | Num c => option_map (fun a => af_scale a c) (af_from_exp r)
-      | _ => match r with
-             | Num c => option_map (fun a => af_scale a c) (af_from_exp l)
-             | _ => None
-             end
+      match as_num l with
+      | Some c => option_map (fun a => af_scale a c) (af_from_exp r)
+      | None => match as_num r with
+                | Some c => option_map (fun a => af_scale a c) (af_from_exp l)
+                | None => None
+                end
       end
   | BinOp Div l r =>
-      match r with
-      | Num d => if xq_is_zero d then None
-                 else option_map (fun a => af_scale a (xq_div (Fin 1%Q) d)) (af_from_exp l)
-      | _ => None
+      match as_num r with
+      | Some d => if xq_is_zero d then None
+                  else option_map (fun a => af_scale a (xq_div (Fin 1%Q) d)) (af_from_exp l)
+      | None => None
       end
   | BinOp _ _ _ => None
   | UnOp Neg x => option_map (fun a => af_scale a (Fin (-1)%Q)) (af_from_exp x)
@@ -132,19 +131,20 @@ Definition af_from_constraint (c : constr) : option aform :=
 (* ---------- analyser state *)
 Record astate := mkA {
   a_vb : list (string * bounds);
-  a_tol : xq;
   a_limit : bool;
   a_infeasible : bool }.
 
+(* the tolerance is a field of the Rust struct, but every construction site sets DEFAULT_TOLERANCE *)
 Definition default_tolerance : xq := Fin (1 # 1000000000)%Q.
+Definition a_tol (a : astate) : xq := default_tolerance.
 Definition default_max_steps : nat := Z.to_nat 10000%Z.
 
 Definition a_get (a : astate) (n : string) : bounds :=
   match al_get (a_vb a) n with Some b => b | None => b_unbounded end.
 Definition a_set_vb (a : astate) (vb : list (string * bounds)) : astate :=
-  mkA vb (a_tol a) (a_limit a) (a_infeasible a).
-Definition a_mark_infeasible (a : astate) : astate := mkA (a_vb a) (a_tol a) (a_limit a) true.
-Definition a_mark_limit (a : astate) : astate := mkA (a_vb a) (a_tol a) true (a_infeasible a).
+  mkA vb (a_limit a) (a_infeasible a).
+Definition a_mark_infeasible (a : astate) : astate := mkA (a_vb a) (a_limit a) true.
+Definition a_mark_limit (a : astate) : astate := mkA (a_vb a) true (a_infeasible a).
 Definition a_insert_variable (a : astate) (n : string) (t : vtype) : astate :=
   a_set_vb a (al_insert (a_vb a) n (b_of_vtype t)).
 
@@ -357,7 +357,7 @@ Fixpoint propagate_loop (fuel : nat) (cs : list constr) (forms : list (option af
   end.
 
 Definition from_domain (dom : list (string * vtype)) : astate :=
-  mkA (map (fun p => (fst p, b_of_vtype (snd p))) dom) default_tolerance false false.
+  mkA (map (fun p => (fst p, b_of_vtype (snd p))) dom) false false.
 
 Definition analyze_with (dom : list (string * vtype)) (cs : list constr) (max_steps : nat) : astate :=
   let a := from_domain dom in
